@@ -50,7 +50,7 @@ var R = hx.NewRecorder("C09", "cases = (template over the documented fields, sig
 var cv = rsm2.Std
 
 func TestMain(m *testing.M) {
-	R.Require("reused_unparsed_parent", "cert/sm2/alg_default", "cert/rsa/alg_default", "cert/ecdsa/alg_default", "cert/sm2/SM2-SHA1", "cert/sm2/SM2-SHA256", "csr/sm2/alg_default", "csr/ecdsa/alg_default", "csr/rsa/alg_default",
+	R.Require("crl_number_wide", "reused_unparsed_parent", "cert/sm2/alg_default", "cert/rsa/alg_default", "cert/ecdsa/alg_default", "cert/sm2/SM2-SHA1", "cert/sm2/SM2-SHA256", "csr/sm2/alg_default", "csr/ecdsa/alg_default", "csr/rsa/alg_default",
 		"crl/sm2", "revlist/sm2/alg_default", "revlist/sm2/SM2-SHA256", "serial_negative", "extra_ext_override", "mutant_tbs_or_sig", "other_key", "sig_reencoded", "mutant_value_level", "csr_extreq_attr", "issued_under_parsed_ca", "ca_subject:multivalue_rdn", "ca_subject:extra_attr")
 	hx.Main(m, R)
 }
@@ -112,7 +112,7 @@ type algChoice struct {
 func algGen(kind string) *rapid.Generator[algChoice] {
 	own := map[string][]gx.SignatureAlgorithm{
 		"sm2":   {gx.SM2WithSM3, gx.SM2WithSHA1, gx.SM2WithSHA256},
-		"rsa":   {gx.SHA256WithRSA, gx.SHA384WithRSA, gx.SHA512WithRSA, gx.SHA1WithRSA, gx.SHA256WithRSAPSS, gx.SHA384WithRSAPSS},
+		"rsa":   {gx.SHA256WithRSA, gx.SHA384WithRSA, gx.SHA512WithRSA, gx.SHA1WithRSA, gx.SHA256WithRSAPSS, gx.SHA384WithRSAPSS, gx.SHA512WithRSAPSS},
 		"ecdsa": {gx.ECDSAWithSHA256, gx.ECDSAWithSHA384, gx.ECDSAWithSHA512, gx.ECDSAWithSHA1},
 	}
 	return rapid.Custom(func(t *rapid.T) algChoice {
@@ -984,10 +984,22 @@ func TestC09_CRLs(t *testing.T) {
 		var der []byte
 		var err error
 		var label string
+		var crlNumber *big.Int
 		a := algChoice{0, "default"}
 		if useRevList {
 			a = algGen(s.kind).Draw(t, "alg")
-			tpl := &gx.RevocationList{SignatureAlgorithm: a.alg, RevokedCertificates: revoked, Number: big.NewInt(int64(rapid.IntRange(0, 1<<30).Draw(t, "num"))), ThisUpdate: now, NextUpdate: exp}
+			// cRLNumber: RFC 5280 allows up to 20 octets; small numbers, numbers around 2^31, 2^63 and 2^64, and full-width ones
+			crlNumber = big.NewInt(int64(rapid.IntRange(0, 1<<30).Draw(t, "num")))
+			switch gen.Uniform(t, "numkind", 4) {
+			case 1:
+				crlNumber = new(big.Int).Lsh(big.NewInt(1), uint(rapid.SampledFrom([]int{31, 32, 63, 64, 127}).Draw(t, "numbit")))
+				crlNumber.Add(crlNumber, big.NewInt(int64(rapid.IntRange(-2, 2).Draw(t, "numoff"))))
+			case 2:
+				crlNumber = new(big.Int).SetBytes(gen.BytesN(20).Draw(t, "num20"))
+				crlNumber.SetBit(crlNumber, 159, 0)
+				R.Class("crl_number_wide")
+			}
+			tpl := &gx.RevocationList{SignatureAlgorithm: a.alg, RevokedCertificates: revoked, Number: new(big.Int).Set(crlNumber), ThisUpdate: now, NextUpdate: exp}
 			if rapid.Bool().Draw(t, "xext") {
 				tpl.ExtraExtensions = []pkix.Extension{{Id: asn1.ObjectIdentifier{2, 5, 29, 28}, Critical: true, Value: []byte{0x30, 0x00}}}
 			}
@@ -1020,6 +1032,21 @@ func TestC09_CRLs(t *testing.T) {
 		}
 		if err := independentVerify(s, a.alg, der); err != nil {
 			t.Fatalf("%s: independent verification of CRL failed: %v", label, err)
+		}
+		if crlNumber != nil {
+			found := false
+			for _, e := range crl.TBSCertList.Extensions {
+				if e.Id.Equal(asn1.ObjectIdentifier{2, 5, 29, 20}) {
+					got := new(big.Int)
+					if rest, err := asn1.Unmarshal(e.Value, &got); err != nil || len(rest) != 0 || got.Cmp(crlNumber) != 0 {
+						t.Fatalf("%s: the list was issued with cRLNumber %v, its extension reads %v (err %v)", label, crlNumber, got, err)
+					}
+					found = true
+				}
+			}
+			if !found {
+				t.Fatalf("%s: the issued list carries no cRLNumber extension (template number %v)", label, crlNumber)
+			}
 		}
 		if len(crl.TBSCertList.RevokedCertificates) != len(revoked) {
 			t.Fatalf("%s: %d revoked entries, want %d", label, len(crl.TBSCertList.RevokedCertificates), len(revoked))
